@@ -248,19 +248,32 @@ Section Analyse.
                       | None => acc
                       end) removed' todo.
 
-  (* DesignRoot::analyze followed by the linter, as in Project::analyse *)
-  Definition analyse_gen (S : st) : outcome st :=
+  (* the first half of DesignRoot::analyze: `reset` (with reset_affected) and the list of the
+     units that are not analysed *)
+  Definition prepare (S : st) : option (reset_result * list (uid * entry) * list uid) :=
     match reset_gen fixedF2 (a_maps (sast S)) (added S) (removed S) with
-    | None => OutOfFuel
+    | None => None
     | Some rr =>
         (* reset_affected *)
         let memo1 := filter (fun e => negb (mem_uid (fst e) (rr_all rr))) (a_memo (sast S)) in
         let todo := filter (fun x => match memo_get memo1 x with Some _ => false | None => true end)
                            (unit_ids (units S)) in
+        Some (rr, memo1, todo)
+    end.
+
+  (* the return value of DesignRoot::analyze *)
+  Definition analyzed_units (W : world) (rr : reset_result) (todo : list uid) : list uid :=
+    if fixedF3 then f3_extra W (rr_removed rr) todo else todo.
+
+  (* DesignRoot::analyze followed by the linter, as in Project::analyse *)
+  Definition analyse_gen (S : st) : outcome st :=
+    match prepare S with
+    | None => OutOfFuel
+    | Some (rr, memo1, todo) =>
         match analyse_units (units S) todo (mkAst memo1 (rr_maps rr)) with
         | Ok A =>
-            let analyzed := if fixedF3 then f3_extra (units S) (rr_removed rr) todo else todo in
-            Ok (mkSt (units S) [] [] A (lint_update lintf (lintc S) (units S) (a_memo A) analyzed))
+            Ok (mkSt (units S) [] [] A
+                     (lint_update lintf (lintc S) (units S) (a_memo A) (analyzed_units (units S) rr todo)))
         | OutOfFuel => OutOfFuel | Deadlock => Deadlock | Crash => Crash
         end
     end.
